@@ -3,7 +3,9 @@
    guard, parsing dispatch.
    Mirrors (src/highdicom):
      sr/utils.py  find_content_items, _create_references, collect_evidence
-     sr/sop.py    _SR.__init__, _collect_predecessors, from_dataset,
+     sr/sop.py    _SR.__init__ (guards + the arguments it only records: institution /
+                  department name, performed procedure codes, requested procedures),
+                  _collect_predecessors, from_dataset,
                   get_evidence, get_evidence_series, EnhancedSR, ComprehensiveSR,
                   Comprehensive3DSR, srread
      ko/sop.py    KeyObjectSelectionDocument.__init__, resolve_reference
@@ -149,6 +151,32 @@ Definition ko_code : Z := 3.
 
 Inductive content_arg := CDataset (it : item) | CSequence (l : list item).
 
+(* arguments that _SR.__init__ (and every subclass constructor, which hands them through) only
+   RECORDS - they take part in no guard: institution_name, institutional_department_name,
+   performed_procedure_codes (code values), requested_procedures (procedure ids); numbered by
+   the harness, None = argument not given *)
+Record extras := Extras {
+  x_institution : option Z; x_department : option Z;
+  x_codes : option (list Z); x_requests : option (list Z)
+}.
+Definition no_extras : extras := Extras None None None None.
+
+(* what a document carries of them: InstitutionName, InstitutionalDepartmentName,
+   PerformedProcedureCodeSequence (None = attribute absent), ReferencedRequestSequence *)
+Record recorded := Recorded {
+  w_institution : option Z; w_department : option Z;
+  w_codes : option (list Z); w_requests : option (list Z)
+}.
+Definition no_recorded : recorded := Recorded None None None None.
+
+(* the department name is written only together with an institution name; the performed
+   procedure code sequence is always written (empty when no codes were given) *)
+Definition record_extras (x : extras) : recorded :=
+  Recorded (x_institution x)
+           (match x_institution x with Some _ => x_department x | None => None end)
+           (Some (match x_codes x with Some l => l | None => [] end))
+           (x_requests x).
+
 Record sr_args := Args {
   a_evidence : list evd;
   a_content : content_arg;
@@ -157,7 +185,8 @@ Record sr_args := Args {
   a_complete : bool; a_final : bool; a_verified : bool;
   a_observer : option Z; a_org : option Z;
   a_previous : option (list evd);
-  a_record : bool
+  a_record : bool;
+  a_extras : extras
 }.
 
 Record doc := Doc {
@@ -167,7 +196,8 @@ Record doc := Doc {
   d_other : refs_t;                 (* [] = attribute absent *)
   d_pred : option refs_t;
   d_complete : bool; d_verified : bool; d_final : bool;
-  d_observer : option (Z * Z)
+  d_observer : option (Z * Z);    (* VerifyingObserverSequence[0]: name, organization *)
+  d_extras : recorded
 }.
 
 (* _collect_predecessors: grouping WITHOUT de-duplication *)
@@ -203,7 +233,8 @@ Definition sr_base_init (cls : Z) (a : sr_args) : res doc :=
                   (if a_verified a
                    then match a_observer a, a_org a with
                         | Some n, Some o => Some (n, o) | _, _ => None end
-                   else None))))
+                   else None)
+                  (record_extras (a_extras a)))))
   end.
 
 Definition root_of (c : content_arg) : option item :=
@@ -283,7 +314,7 @@ Definition parse_root (it : item) : res item :=
 
 Definition set_content (d : doc) (it : item) : doc :=
   Doc (d_cls d) it (d_current d) (d_other d) (d_pred d)
-      (d_complete d) (d_verified d) (d_final d) (d_observer d).
+      (d_complete d) (d_verified d) (d_final d) (d_observer d) (d_extras d).
 
 Definition sr_from_dataset (target : sr_class) (has_cs : bool) (d : doc) : res doc :=
   let base := if has_cs
@@ -328,7 +359,7 @@ Definition ko_init (ev : list evd) (ts_ok : bool) (root : item) : res doc :=
       match fst cu with
       | _ :: _ :: _ => Err "ValueError"          (* more than one study *)
       | [] => Err "AttributeError"               (* evidence sequence never set *)
-      | [_] => Ok (Doc ko_code root (fst cu) [] None false false false None)
+      | [_] => Ok (Doc ko_code root (fst cu) [] None false false false None no_recorded)
       end)
   end.
 
@@ -389,12 +420,12 @@ Definition set_attrs (it : item) (a : attrs) : item :=
   Item (i_vt it) (i_tag it) (i_rel it) (i_ref it) a (i_kids it).
 Definition ko_tamper (t : Z) (d : doc) : bool * doc :=
   let c := d_content d in
-  if t =? 1 then (true, Doc 1 c (d_current d) (d_other d) (d_pred d) (d_complete d) (d_verified d) (d_final d) (d_observer d))
+  if t =? 1 then (true, Doc 1 c (d_current d) (d_other d) (d_pred d) (d_complete d) (d_verified d) (d_final d) (d_observer d) (d_extras d))
   else if t =? 2 then (true, set_content d (set_attrs c (map (fun kv : Z * list Z =>
                                if fst kv =? k_template then (fst kv, [2000]) else kv) (i_attrs c))))
   else if t =? 3 then (true, set_content d (set_attrs c (filter (fun kv : Z * list Z =>
                                negb (fst kv =? k_template)) (i_attrs c))))
-  else if t =? 4 then (true, Doc (d_cls d) c [] (d_other d) (d_pred d) (d_complete d) (d_verified d) (d_final d) (d_observer d))
+  else if t =? 4 then (true, Doc (d_cls d) c [] (d_other d) (d_pred d) (d_complete d) (d_verified d) (d_final d) (d_observer d) (d_extras d))
   else if t =? 5 then (true, set_content d (Item TEXT (i_tag c) (i_rel c) (i_ref c) (i_attrs c) (i_kids c)))
   else if t =? 6 then (false, set_content d (Item (i_vt c) (i_tag c) (i_rel c) (i_ref c) (i_attrs c) []))
   else (true, d).
@@ -427,7 +458,9 @@ Definition doc_val (d : doc) : val :=
       VL [VB (d_complete d); VB (d_verified d); VB (d_final d);
           match d_observer d with None => VNone | Some no => VL [VZ (fst no); VZ (snd no)] end];
       VL (map t4_val (get_evidence d false)); VL (map t4_val (get_evidence d true));
-      VL (map t2_val (get_evidence_series d false)); VL (map t2_val (get_evidence_series d true))].
+      VL (map t2_val (get_evidence_series d false)); VL (map t2_val (get_evidence_series d true));
+      VL [vopt VZ (w_institution (d_extras d)); vopt VZ (w_department (d_extras d));
+          vopt vz_list (w_codes (d_extras d)); vopt vz_list (w_requests (d_extras d))]].
 
 Definition run_find (has_cs : bool) (q : query) (recursive : bool) (node : item) : val :=
   vres (fun l => VL (map item_val l)) (find_content_items has_cs q recursive node).
